@@ -212,6 +212,43 @@ func singleFaults(lines [][]byte, pool map[string][]byte, kinds []string, full b
 			out = append(out, faultCase{m, fmt.Sprintf("move #%d (%s) to position %d", i+1, ks[i], j+1), "move:" + ks[i] + ">after:" + after})
 		}
 	}
+	// container-level faults: a whole cash letter (10..90) or bundle (20..70) repeated - directly after
+	// itself and at the end of the enclosing container - or removed.  The sequence stays well nested (the
+	// repeated container carries the same identifiers as the original), so every record must come back.
+	for _, c := range [][2]string{{"10", "90"}, {"20", "70"}} {
+		for i := 0; i < n; i++ {
+			if ks[i] != c[0] {
+				continue
+			}
+			j := i
+			for j < n && ks[j] != c[1] {
+				j++
+			}
+			if j >= n {
+				continue
+			}
+			blk := lines[i : j+1]
+			adj := append(append(cp(lines[:j+1]), blk...), lines[j+1:]...)
+			out = append(out, faultCase{adj, fmt.Sprintf("repeat the container #%d..#%d (%s) after itself", i+1, j+1, c[0]), "repeat-container:" + c[0]})
+			// end of the enclosing container: before the next 90 (for a bundle) / the 99 (for a cash letter)
+			end := c[1]
+			if c[0] == "20" {
+				end = "90"
+			} else {
+				end = "99"
+			}
+			e := j + 1
+			for e < n && ks[e] != end {
+				e++
+			}
+			if e < n && e > j+1 {
+				far := append(append(cp(lines[:e]), blk...), lines[e:]...)
+				out = append(out, faultCase{far, fmt.Sprintf("repeat the container #%d..#%d (%s) at the end of its parent", i+1, j+1, c[0]), "repeat-container-far:" + c[0]})
+			}
+			del := append(cp(lines[:i]), lines[j+1:]...)
+			out = append(out, faultCase{del, fmt.Sprintf("delete the container #%d..#%d (%s)", i+1, j+1, c[0]), "delete-container:" + c[0]})
+		}
+	}
 	for p := 0; p <= n; p++ {
 		for _, k := range kinds {
 			l, ok := pool[k]
